@@ -657,6 +657,14 @@ def gen_C10(rnd, n, tier):
             else: body2 = "if (flag(F)) {\n  %s\n  end\n  %s\n} else {\n  %s\n}" % ("\n  ".join(a), b[0], "\n  ".join(b[1:]))
             src2 = pre + "script S {\n  " + body2 + "\n}\n"
             out.append(Case(compile_line(cfg, src2), src2, cfg, {"want": want, "texts": [], "scattered": shape}))
+    # round 15 (appended, fixed): a constant whose value has several tokens, written next to a multiplicative operator,
+    # is substituted token by token like everywhere else - no parentheses appear that nobody wrote
+    pre = "const BASE = 10\nconst STRIDE = BASE + 2\nconst TWICE = STRIDE * 2\n"
+    for op in ("*", "/", "%"):
+        src = pre + "script S {\n  setvar(VAR_0x8002, STRIDE %s 3)\n  addvar(VAR_0x8003, 2 %s STRIDE, STRIDE)\n  x((STRIDE) %s STRIDE, TWICE %s TWICE)\n  y(1 + STRIDE %s 2 - STRIDE)\n}\n" % (op, op, op, op, op)
+        want = ["\tsetvar VAR_0x8002, 10 + 2 %s 3" % op, "\taddvar VAR_0x8003, 2 %s 10 + 2, 10 + 2" % op, "\tx ( 10 + 2 ) %s 10 + 2, 10 + 2 * 2 %s 10 + 2 * 2" % (op, op), "\ty 1 + 10 + 2 %s 2 - 10 + 2" % op]
+        cfg = base_cfg(switches={"V": "ZZ"})
+        out.append(Case(compile_line(cfg, src), src, cfg, {"want": want, "texts": []}))
     return out
 
 def oracle_C10(case, res):
@@ -1109,6 +1117,27 @@ def gen_C13(rnd, n, tier):
             out.append(Case(compile_line(cfg, prog5), prog5, cfg, {"role": "selfref", "want": "\tsetvar VAR_X, %s\n" % ("SELF" if nm == "SELF" else "PB")}, group=(it, "s")))
             prog6 = idc + "\nconst %s = 3\nscript S { setvar(VAR_X, %s) }" % (nm, nm)
             out.append(Case(compile_line(cfg, prog6), prog6, cfg, {"role": "redef"}, group=(it, "r2")))
+    # round 15 (appended, own random stream): constants composed with multiplicative operators - in the definition of
+    # another constant and at the use sites - expand token by token like sums do
+    r2 = rnd.fork("c13mul")
+    for it in range(max(9, n // 6)):
+        op = ["*", "/", "%"][it % 3]; op2 = r2.choice(["*", "/", "%", "-"])
+        defs = {"B0": [str(r2.randint(2, 9))]}; defs["S1"] = defs["B0"] + ["+", str(r2.randint(1, 5))]
+        form = [["S1", op, "2"], ["3", op, "S1"], ["S1", op, "S1"]][(it // 3) % 3]      # no parentheses in values: F24
+        exp = []
+        for tk in form: exp += defs.get(tk, [tk])
+        defs["A2"] = exp
+        deflines = ["const B0 = %s" % defs["B0"][0], "const S1 = B0 + %s" % defs["S1"][2], "const A2 = %s" % " ".join(form)]
+        tm = ["setvar(VAR_B, A2)", "addvar(VAR_C, S1 %s 3, S1)" % op2, "foo(2 %s S1, A2 %s A2)" % (op2, op), "if (var(VAR_C) == 3 %s S1 - 1) { a }" % op2,
+              "switch (var(VAR_D)) { case A2: b case S1 %s 7: c }" % op2, "while (var(VAR_E) < S1 %s 2) { w }" % op, "if (flag(FLAG_BASE + A2)) { f }",
+              "switch (specialvar(VAR_F, A2)) { case 1: s }", "if (var(VAR_G) >= value(A2)) { v }"]
+        k0 = r2.randint(0, len(tm) - 1); stmts = [tm[(k0 + j * 2) % len(tm)] for j in range(r2.randint(2, 5))]
+        tops = ["script S { %s }" % " ".join(stmts), "mapscripts MS { T [ VAR_T, A2: L1  VAR_U, S1 %s 2 { z } ] }" % op]
+        name_re = re.compile(r"(?<![\w])(B0|S1|A2)(?![\w])")
+        prog = "\n".join(deflines + tops); prog2 = "\n".join(name_re.sub(lambda m: " ".join(defs[m.group(0)]), tp) for tp in tops)
+        cfg = base_cfg()
+        out.append(Case(compile_line(cfg, prog), prog, cfg, {"role": "const"}, group=("mul", it)))
+        out.append(Case(compile_line(cfg, prog2), prog2, cfg, {"role": "expanded"}, group=("mul", it)))
     return out
 
 def oracle_C13_group(cases, results):
